@@ -20,12 +20,21 @@ decodes, a signature verifies under the public key of its secret key).  Hence
   external verifier on an exact-length input.
 Observed on the real crates and built into the toy instance the driver runs (`Toy.schemes`): p256 / p384 verification accepts
 (r, n − s) for a valid (r, s); k256 and Ed25519 (strict) do not.
+
+SECOND WAVE (last section).  "The values fixed by RFC 8032 and RFC 6979" are now checked against executable specifications written
+from the RFCs — `Crypto/Ed25519.lean`, `Crypto/Ecdsa.lean` — which the driver evaluates for EVERY sign operation (signature bytes,
+public key) and EVERY verify operation (verdict of the strict Ed25519 / the ECDSA verifier) and the harness compares with the library
+byte for byte.  Proved about those specifications without elliptic-curve group laws: determinism and closed form of the Ed25519
+signature, widths, canonical S (emitted S < L; every S ≥ L — in particular S + L — rejected by all verifiers), low-S for secp256k1,
+the RFC 6979 nonce range (with the loop's fuel stated), and `ecdsa_correct` over every abstract group satisfying `Ecdsa.Laws`
+(satisfiable: Z/7).  Not proved (OPEN block of `Lemmas/Sign.lean`): that the arithmetic of `Ec.lean` satisfies the laws, Ed25519
+correctness, rejection of a canonical S' ≠ S.
 -/
 import AskarModel.Model.Sign
 import AskarModel.Lemmas.Sign
 
 namespace Askar.C13
-open Askar.Sign
+open Askar.Sign Askar.Crypto
 
 /-! ### the type-string parser -/
 
@@ -225,5 +234,114 @@ example : signMessage Toy.schemes (Key.ofSecret Toy.schemes .ed25519 .ed25519 [1
 /-- `wrong_length_false` on the toy instance, and `nonsigning_alg_errors` on an AES key -/
 example : verifySignature Toy.schemes (Key.ofSecret Toy.schemes .p256 .p256 [1]) [] (List.replicate 63 0) none = .ok false := by decide
 example : signMessage Toy.schemes { alg := .a256Gcm, secret := some [1], pub := [] } [] none = .err .unsupported := by decide
+
+/-! ### second wave: the executable specifications of the external schemes
+
+`Crypto/Ed25519.lean` (RFC 8032) and `Crypto/Ecdsa.lean` (SEC 1 + RFC 6979) are what the driver evaluates for every sign and
+verify operation; the harness compares the library with them byte for byte.  What is PROVED about them here needs no elliptic-curve
+group law; what does need one is either stated under an explicit hypothesis (`ecdsa_correct`) or listed as OPEN in `Lemmas/Sign.lean`. -/
+
+/-- Ed25519 signing has no input besides the secret key and the message (no nonce, no randomness, no state): equal inputs, equal
+    signatures.  True by construction — `Ed25519.sign` is a function — and recorded here as the statement "deterministic". -/
+theorem ed25519_sign_deterministic {sk sk' m m' : Bytes} (hk : sk = sk') (hm : m = m') : Ed25519.sign sk m = Ed25519.sign sk' m' := by
+  rw [hk, hm]
+
+/-- … and its value in closed form: R ‖ S with R = enc([r]B) (32 octets), S = (r + k·a) mod L in 32 little-endian octets,
+    r = H(prefix ‖ M) mod L, k = H(R ‖ A ‖ M) mod L (RFC 8032 §5.1.6) -/
+theorem ed25519_sign_closed_form (sk m : Bytes) :
+    Ed25519.sign sk m = Ed25519.sigR sk m ++ Ed25519.natLE 32 (Ed25519.sigSOf sk m) ∧ (Ed25519.sigR sk m).length = 32 ∧
+    Ed25519.sigSOf sk m = (Ed25519.leNat (Ed25519.sha512 ((Ed25519.expand sk).2 ++ m)) % Ed25519.L +
+      Ed25519.leNat (Ed25519.sha512 (Ed25519.sigR sk m ++ Ed25519.publicKey sk ++ m)) % Ed25519.L * (Ed25519.expand sk).1) % Ed25519.L :=
+  ⟨Ed25519.sign_eq sk m, Ed25519.sigR_length sk m, rfl⟩
+
+/-- the width is what `SignatureType::signature_length` announces for EdDSA -/
+theorem ed25519_sig_width (sk m : Bytes) : (Ed25519.sign sk m).length = SignatureType.eddsa.signatureLength :=
+  Ed25519.sign_length sk m
+
+/-- the S the specification emits is canonical: as a little-endian integer it is below the group order L -/
+theorem ed25519_S_canonical (sk m : Bytes) : Ed25519.leNat ((Ed25519.sign sk m).drop 32) < Ed25519.L := by
+  rw [Ed25519.sign_S]; exact Ed25519.sigSOf_lt sk m
+
+/-- the canonical-S rule: a byte string whose second half decodes to S ≥ L is rejected by the strict verifier (the library's), by the
+    cofactorless non-strict one and by RFC 8032's — whatever the key, the message and R -/
+theorem ed25519_noncanonical_S_rejected (pk m sig : Bytes) (h : Ed25519.L ≤ Ed25519.leNat (sig.drop 32)) :
+    Ed25519.verifyStrict pk m sig = false ∧ Ed25519.verifyLoose pk m sig = false ∧ Ed25519.verifyRfc pk m sig = false :=
+  Ed25519.noncanonical_S_rejected pk m sig h
+
+/-- `ed25519_S_flip_rejected`, the part that needs no group reasoning: the signature (R, S + L) — same R, the other representative
+    of S modulo L, still 32 octets — is rejected under every key and message by all three verifiers.  (That a CANONICAL S' ≠ S is
+    rejected needs "B has order L": OPEN, see `Lemmas/Sign.lean`.) -/
+theorem ed25519_S_flip_rejected (sk m pk' m' : Bytes) :
+    (Ed25519.plusL (Ed25519.sign sk m)).take 32 = (Ed25519.sign sk m).take 32 ∧
+    Ed25519.leNat ((Ed25519.plusL (Ed25519.sign sk m)).drop 32) = Ed25519.leNat ((Ed25519.sign sk m).drop 32) + Ed25519.L ∧
+    Ed25519.verifyStrict pk' m' (Ed25519.plusL (Ed25519.sign sk m)) = false ∧
+    Ed25519.verifyLoose pk' m' (Ed25519.plusL (Ed25519.sign sk m)) = false ∧
+    Ed25519.verifyRfc pk' m' (Ed25519.plusL (Ed25519.sign sk m)) = false := by
+  have hS := Ed25519.plusL_S sk m
+  have hrej := Ed25519.noncanonical_S_rejected pk' m' (Ed25519.plusL (Ed25519.sign sk m)) (by rw [hS]; omega)
+  refine ⟨?_, ?_, hrej.1, hrej.2.1, hrej.2.2⟩
+  · have hl : ((Ed25519.sign sk m).take 32).length = 32 := by rw [Ed25519.sign_take]; exact Ed25519.sigR_length sk m
+    unfold Ed25519.plusL
+    rw [List.take_append_of_le_length (by omega), List.take_of_length_le (by omega)]
+  · rw [hS, Ed25519.sign_S]
+
+/-- ECDSA signatures are r ‖ s at fixed width, twice the field width … -/
+theorem ecdsa_sig_width (S : Ecdsa.Suite) (reduce : Bool) (sk m sig : Bytes) (h : Ecdsa.sign S reduce sk m = some sig) :
+    sig.length = 2 * S.curve.len := Ecdsa.sign_width S reduce sk m sig h
+
+/-- … which is what `SignatureType::signature_length` announces for ES256, ES256K, ES384 -/
+theorem ecdsa_sig_width_matches_type (reduce : Bool) (sk m sig : Bytes) :
+    (Ecdsa.sign Ecdsa.p256 reduce sk m = some sig → sig.length = SignatureType.es256.signatureLength) ∧
+    (Ecdsa.sign Ecdsa.k256 reduce sk m = some sig → sig.length = SignatureType.es256k.signatureLength) ∧
+    (Ecdsa.sign Ecdsa.p384 reduce sk m = some sig → sig.length = SignatureType.es384.signatureLength) :=
+  ⟨fun h => Ecdsa.sign_width _ _ _ _ _ h, fun h => Ecdsa.sign_width _ _ _ _ _ h, fun h => Ecdsa.sign_width _ _ _ _ _ h⟩
+
+/-- secp256k1: the emitted s is in the lower half, 1 ≤ s ≤ ⌊n/2⌋ — as a number and as the 32 big-endian octets of the signature -/
+theorem ecdsa_low_s_k256 (reduce : Bool) (sk m : Bytes) :
+    (∀ r s, Ecdsa.signRSBytes Ecdsa.k256 reduce sk m = some (r, s) → 1 ≤ s ∧ s ≤ Ec.k256.n / 2) ∧
+    (∀ sig, Ecdsa.sign Ecdsa.k256 reduce sk m = some sig → Ecdsa.os2ip (sig.drop 32) ≤ Ec.k256.n / 2) := by
+  refine ⟨fun r s h => Ecdsa.signRSBytes_lowS rfl Ecdsa.k256_n_pos h, ?_⟩
+  intro sig h
+  obtain ⟨r, s, hrs, hhalf⟩ := Ecdsa.sign_s_half h
+  have hs := (Ecdsa.signRSBytes_lowS rfl Ecdsa.k256_n_pos hrs).2
+  have hlt : s < 256 ^ 32 := Nat.lt_of_le_of_lt hs Ecdsa.k256_half_lt
+  have h32 : Ecdsa.k256.curve.len = 32 := rfl
+  rw [h32] at hhalf
+  rw [hhalf, Nat.mod_eq_of_lt hlt]
+  exact hs
+
+/-- RFC 6979: the nonce handed to the signing equation is in range, 1 ≤ k < q — by construction of the retry loop.  The loop is
+    bounded: `generateK` examines at most `Ecdsa.nonceFuel` = 100 candidates and answers `none` beyond that (never observed; a
+    candidate is out of range with probability < 2⁻³²). -/
+theorem rfc6979_nonce_in_range (P : Ecdsa.Params) (reduce : Bool) (x : Nat) (h1 : Bytes) (k : Nat)
+    (h : Ecdsa.generateK P reduce x h1 = some k) : 1 ≤ k ∧ k < P.q := Ecdsa.generateK_range P reduce x h1 k h
+
+/-- ECDSA is correct over EVERY structure `O` of group operations that satisfies `Ecdsa.Laws` (a cyclic group of order n with
+    inverses modulo n, k ↦ k·G periodic and additive, x(−P) = x(P), x mod n < n): what `signRS` produces from a nonce k ≢ 0,
+    `verifyRS` accepts under the public point d·G — with and without the low-S rule. -/
+theorem ecdsa_correct {Pt : Type} {O : Ecdsa.Ops Pt} (hL : Ecdsa.Laws O) (lowS : Bool) {d k z r s : Nat} (hk : k % O.n ≠ 0)
+    (h : Ecdsa.signRS O lowS d k z = some (r, s)) : Ecdsa.verifyRS O lowS (O.mulBase d) z r s = true :=
+  Ecdsa.ecdsa_correct hL lowS hk h
+
+/-- … hence for the executable suites, IF the arithmetic of `Ec.lean` satisfies the laws (OPEN `ecdsa_laws_exec`): the (r, s) signed
+    for a message verifies under the public point of the secret key, for the digest of that message -/
+theorem ecdsa_correct_exec (S : Ecdsa.Suite) (hL : Ecdsa.Laws (Ecdsa.ops S.curve)) (reduce : Bool) (sk m : Bytes) (r s : Nat)
+    (h : Ecdsa.signRSBytes S reduce sk m = some (r, s)) :
+    Ecdsa.verifyRS (Ecdsa.ops S.curve) S.lowS (Ecdsa.publicPoint S sk)
+      (Ecdsa.bits2int S.params (S.digest m) % S.curve.n) r s = true := by
+  obtain ⟨d, k, hd, hk1, hkn, hs⟩ := Ecdsa.signRSBytes_elim h
+  have hk0 : k % (Ecdsa.ops S.curve).n ≠ 0 := by
+    have : (Ecdsa.ops S.curve).n = S.curve.n := rfl
+    rw [this, Nat.mod_eq_of_lt hkn]; omega
+  have hp : Ecdsa.publicPoint S sk = (Ecdsa.ops S.curve).mulBase d := by
+    unfold Ecdsa.publicPoint; rw [hd]; rfl
+  rw [hp]
+  exact Ecdsa.ecdsa_correct hL S.lowS hk0 hs
+
+/-- the hypotheses of `ecdsa_correct` are satisfiable: Z/7 -/
+example : Ecdsa.Laws Ecdsa.toyOps := Ecdsa.toy_laws
+example : Ecdsa.signRS Ecdsa.toyOps false 3 2 5 = some (2, 2) ∧ Ecdsa.verifyRS Ecdsa.toyOps false (Ecdsa.toyOps.mulBase 3) 5 2 2 = true := by decide
+example : Ecdsa.signRS Ecdsa.toyOps true 3 2 6 = some (2, 1) ∧ Ecdsa.signRS Ecdsa.toyOps false 3 2 6 = some (2, 6) ∧
+    Ecdsa.verifyRS Ecdsa.toyOps true (Ecdsa.toyOps.mulBase 3) 6 2 1 = true ∧ Ecdsa.verifyRS Ecdsa.toyOps true (Ecdsa.toyOps.mulBase 3) 6 2 6 = false := by decide
 
 end Askar.C13
